@@ -13,6 +13,15 @@ MC_PEERSYNC = {"module": "MC_PeerSync", "cfg": {"quick": "MC_PeerSync_quick.cfg"
 MC_PEERSYNC_SHORT = {"module": "MC_PeerSync", "cfg": {"quick": "MC_PeerSync_short.cfg", "thorough": "MC_PeerSync_short.cfg"},
                      "timeout": {"quick": 900, "thorough": 3000}, "workers": 12}
 
+# liveness under fairness (honest peers, servers grow and reorganise, no time): <>[] converged, every peer proven,
+# answerable requests answered; checked on the complete graph, no state constraint
+MC_PEERSYNC_LIVE = {"module": "MC_PeerSyncLive", "cfg": {"quick": "MC_PeerSyncLive_quick.cfg", "thorough": "MC_PeerSyncLive.cfg"},
+                    "timeout": {"quick": 900, "thorough": 3000}, "workers": 8}
+# the convergence property exactly as stated: TLC must exhibit KF-C05-notlonger as a liveness counterexample
+MC_PEERSYNC_LIVE_STRICT = {"module": "MC_PeerSyncLive", "cfg": {"quick": None, "thorough": "MC_PeerSyncLive_strict.cfg"},
+                           "expect": "violation", "expect_re": r"Temporal property ConvergesToHeaviest was violated",
+                           "timeout": {"quick": 900, "thorough": 3000}, "workers": 8}
+
 def peersync(mode, nq, nt, pq=4, pt=12, extra=None):
     return {"name": "peersync-" + mode, "driver": "peersync", "args": ["mode=" + mode] + (extra or []),
             "n": {"quick": nq, "thorough": nt}, "procs": {"quick": pq, "thorough": pt}}
@@ -41,6 +50,12 @@ def freplay(nq, nt, pq=2, pt=6):
             "gen": {"module": "MC_FilterForkR", "cfg": "MC_FilterForkR.cfg", "num": {"quick": 300, "thorough": 3000}, "depth": 24},
             "n": {"quick": nq, "thorough": nt}, "procs": {"quick": pq, "thorough": pt}}
 
+def fetchreplay(nq, nt, pq=2, pt=6):
+    """specification -> implementation: behaviours of MC_FetchR (tlc -simulate) executed on the real client"""
+    return {"name": "filtersync-fetchreplay", "driver": "filtersync", "args": ["mode=fetchreplay"], "trace_module": "Trace_FilterSync",
+            "gen": {"module": "MC_FetchR", "cfg": "MC_FetchR.cfg", "num": {"quick": 300, "thorough": 3000}, "depth": 24},
+            "n": {"quick": nq, "thorough": nt}, "procs": {"quick": pq, "thorough": pt}}
+
 def mc_cp(name, quick, tq=600, tt=3000):
     return {"module": "MC_CheckPoints", "cfg": {"quick": ("MC_CheckPoints_%s.cfg" % name) if quick else None, "thorough": "MC_CheckPoints_%s.cfg" % name},
             "timeout": {"quick": tq, "thorough": tt}, "workers": 8}
@@ -65,6 +80,14 @@ MC_CONC = {"module": "MC_Conc", "cfg": "MC_Conc.cfg", "timeout": {"quick": 600, 
 # the lock discipline before fix 92f2bdb (tip and prove state updated outside the lock): TLC must refute it
 MC_CONC_PREFIX = {"module": "MC_Conc", "cfg": "MC_Conc_prefix.cfg", "expect": "violation",
                   "timeout": {"quick": 600, "thorough": 600}, "workers": 4}
+
+# C16: the fetch tables, the fetch tick's requests, honest / rejected answers, peers that drop out and come back; with
+# liveness under fairness (NeverLost) on the complete graph
+MC_FETCH = {"module": "MC_Fetch", "cfg": {"quick": "MC_Fetch.cfg", "thorough": "MC_Fetch_big.cfg"},
+            "timeout": {"quick": 900, "thorough": 6000}, "workers": 6}
+# a rejected answer only clears the request (the code before fix 4053296): TLC must refute it
+MC_FETCH_PREFIX = {"module": "MC_Fetch", "cfg": "MC_Fetch_prefix.cfg", "expect": "violation",
+                   "timeout": {"quick": 300, "thorough": 300}, "workers": 4}
 
 FS_ASSUMPTIONS = COMMON_ASSUMPTIONS + [
     "the index is read back by a raw scan of the RocksDB keyspace after every event and compared with the ground truth TLC derives from the world (Index.tla)",
@@ -146,8 +169,8 @@ CHECKS = {
     },
     "C16": {
         "trace_module": "Trace_FilterSync",
-        "mc": [MC_FILTERSYNC],
-        "drivers": [fsync("fetch", 30, 250, 3, 8), fsync("fork", 15, 100, 2, 4), fsync("forkrand", 25, 150, 2, 4)],
+        "mc": [MC_FILTERSYNC, MC_FETCH, MC_FETCH_PREFIX],
+        "drivers": [fsync("fetch", 30, 250, 3, 8), fsync("fork", 15, 100, 2, 4), fsync("forkrand", 25, 150, 2, 4), fetchreplay(120, 1500, 2, 6)],
         "assumptions": FS_ASSUMPTIONS,
     },
     "C13": {
@@ -233,7 +256,7 @@ CHECKS = {
     },
     "C05": {
         "trace_module": "Trace_PeerSync",
-        "mc": [MC_PEERSYNC],
+        "mc": [MC_PEERSYNC, MC_PEERSYNC_LIVE, MC_PEERSYNC_LIVE_STRICT],
         "drivers": [peersync("honest", 60, 400)],
         "assumptions": COMMON_ASSUMPTIONS + [
             "honest peers follow DESIGN.md appendix A (RFC 44 server algorithm, cross-checked against the repository's test fixtures)",
